@@ -60,6 +60,10 @@ def run(ctx):
     savers = sorted(t_small._savers().keys())
     seen = {}
     reqs = []
+    fsreqs = []
+
+    def listing(d_):
+        return {nm: sha(os.path.join(d_, nm)) for nm in os.listdir(d_) if os.path.isfile(os.path.join(d_, nm))}
 
     def viol(key, what, rp):
         seen.setdefault(key, (what, rp))
@@ -106,11 +110,20 @@ def run(ctx):
                         else:
                             t_long.save(victim)
                     before = sha(victim)
+                    snap0 = listing(ctx.scratch)
                     raised = None
                     try:
                         t.save(path, force_overwrite=force)
                     except Exception as e:  # noqa: BLE001
                         raised = type(e).__name__
+                    # the whole directory against the model (Model/FileSys.lean): which paths exist, which changed, nothing else touched
+                    if ext != ".dtr":
+                        snap1 = listing(ctx.scratch)
+                        names0 = sorted(snap0)
+                        ids0 = {nm: "o%d" % i for i, nm in enumerate(names0)}
+                        fsreqs.append(("fsys %s %d %s" % (",".join("%s=%s" % (nm, ids0[nm]) for nm in names0) or "-", 1 if force else 0,
+                                                          ",".join("%s=N%d" % (os.path.basename(tg), i) for i, tg in enumerate(targets))),
+                                       raised is not None, snap0, snap1, ids0, dict(ext=ext, traj=tname, preexisting=pre, force=force)))
                     desc = dict(ext=ext, traj=tname, preexisting=pre, force=force, entry="Trajectory.save")
                     ctx.case(desc, (ext, tname, pre, force, "save"))
                     ctx.count("save:" + ext)
@@ -250,6 +263,26 @@ def run(ctx):
             fq.close()
         except Exception as e:  # noqa: BLE001
             viol("path-like|raises|" + ext_, "md.open(pathlib.Path('x.%s'), 'w', force_overwrite=True) raised %s: %s" % (ext_, type(e).__name__, str(e)[:80]), dict(ext=ext_))
+    if ctx.driver_ok and fsreqs:
+        fm = ctx.driver.query([r[0] for r in fsreqs])
+        for (rq, raised_, snap0, snap1, ids0, desc_), m in zip(fsreqs, fm):
+            ctx.count("directory listings compared with the model")
+            err_, _, ent_ = m.partition(" ")
+            want = {}
+            for kv in (ent_.split(",") if ent_ else []):
+                nm, _, idv = kv.partition("=")
+                want[nm] = idv
+            got = {}
+            for nm, h_ in snap1.items():
+                got[nm] = ids0[nm] if (nm in snap0 and snap0[nm] == h_) else "N"
+            wantc = {nm: (v if not v.startswith("N") else "N") for nm, v in want.items()}
+            # a file written with the bytes it already had counts as unchanged on disk
+            same_ = {nm for nm in wantc if wantc[nm] == "N" and got.get(nm) == ids0.get(nm) and nm in snap0}
+            for nm in same_:
+                wantc[nm] = ids0[nm]
+            if (err_ == "err=1") != raised_ or got != wantc:
+                diff_ = sorted(set(got.items()) ^ set(wantc.items()))
+                ctx.broke("correspondence:directory", "%s: after Trajectory.save the directory differs from the model in %s (refused: impl %s, model %s)" % (desc_, diff_[:4], raised_, err_))
     for key, (what, rp) in seen.items():
         ctx.violation(key, what, rp)
 
